@@ -111,15 +111,27 @@ def array_level(tier, seed):
                     w = p2[a:b]
                     val = rng.random() < 0.5
                     other = np.array([rng.random() < 0.5 for _ in range(b - a)], dtype=np.bool_)
+                    # byte level: the view's own buffer before the call, for the model of the bulk
+                    # operations (Packed.bulk_op) and of the index-array operations
+                    bytes_before = [int(x) for x in w._data]
+                    vdesc = [0, len(w._data), int(w._start_index), int(w._stop_index)]
+                    byte_op = None      # (model op groups, label)
                     if opn == 'set_bool':
                         p2[a:b] = val
                         r2[a:b] = val
+                        byte_op = ([[43], vdesc, [0], bytes_before, [255 if val else 0]], 'x[a:b] = bool')
                     elif opn == 'set_arr':
                         p2[a:b] = other
                         r2[a:b] = other
+                        if b > a:
+                            ob = PBA.from_boolean_array(other, start_index=w._start_index)
+                            byte_op = ([[43], vdesc, [0], bytes_before, [int(x) for x in ob._data]], 'x[a:b] = ndarray')
                     elif opn == 'set_pba':
-                        p2[a:b] = PBA.from_boolean_array(other, start_index=w._start_index)
+                        ob = PBA.from_boolean_array(other, start_index=w._start_index)
+                        p2[a:b] = ob
                         r2[a:b] = other
+                        if b > a:
+                            byte_op = ([[43], vdesc, [0], bytes_before, [int(x) for x in ob._data]], 'x[a:b] = packed')
                     elif opn in ('ior_b', 'iand_b', 'ixor_b'):
                         if opn == 'ior_b':
                             w |= val
@@ -130,6 +142,8 @@ def array_level(tier, seed):
                         else:
                             w ^= val
                             r2[a:b] ^= val
+                        byte_op = ([[43], vdesc, [{'iand_b': 1, 'ior_b': 2, 'ixor_b': 3}[opn]], bytes_before,
+                                    [255 if val else 0]], opn)
                     elif opn in ('ior_p', 'iand_p', 'ixor_p'):
                         o = PBA.from_boolean_array(other, start_index=w._start_index)
                         if opn == 'ior_p':
@@ -141,27 +155,39 @@ def array_level(tier, seed):
                         else:
                             w ^= o
                             r2[a:b] ^= other
+                        if b > a:
+                            byte_op = ([[43], vdesc, [{'iand_p': 1, 'ior_p': 2, 'ixor_p': 3}[opn]], bytes_before,
+                                        [int(x) for x in o._data]], opn)
                     elif opn == 'invert':
                         w.invert()
                         r2[a:b] = ~r2[a:b]
+                        byte_op = ([[43], vdesc, [4], bytes_before, [0]], 'invert')
                     elif opn == 'idx_get':
                         if b - a > 0:
                             ix = np.array([rng.randrange(b - a) for _ in range(rng.randint(0, 6))], dtype=np.int64)
                             got = w[ix]
                             if len(ix) > 0 and not np.array_equal(np.asarray(got), r2[a:b][ix]):
                                 bad('index-array read through x[%d:%d] differs from NumPy (n=%d)' % (a, b, n))
+                            if len(ix) > 0:
+                                ops.append([[44], [2], [int(x) + int(w._start_index) for x in ix], bytes_before])
+                                exp.append(('bytes', [int(bool(x)) for x in np.atleast_1d(got)],
+                                            'bits tested through x[%d:%d] at %s, n=%d' % (a, b, ix.tolist(), n)))
                     elif opn in ('idx_set_b', 'idx_set_a'):
                         if b - a > 0:
                             ix = np.array([rng.randrange(b - a) for _ in range(rng.randint(0, 6))], dtype=np.int64)
                             if opn == 'idx_set_b':
                                 w[ix] = val
                                 r2[a:b][ix] = val
+                                byte_op = ([[44], [0 if val else 1], [int(x) + int(w._start_index) for x in ix],
+                                            bytes_before], 'x[idx] = bool')
                             else:
                                 ixu = np.unique(ix)
                                 vv = np.array([rng.random() < 0.5 for _ in ixu], dtype=np.bool_)
                                 w[ixu] = vv
                                 tmp = r2[a:b]
                                 tmp[ixu] = vv
+                                byte_op = ([[44], [3], [int(x) + int(w._start_index) for x in ixu[vv]], bytes_before,
+                                            [int(x) + int(w._start_index) for x in ixu[~vv]]], 'x[idx] = ndarray')
                     elif opn == 'copy':
                         cpy = w.copy()
                         if not np.array_equal(np.asarray(cpy), r2[a:b]):
@@ -172,6 +198,12 @@ def array_level(tier, seed):
                         extra = rng.randint(0, 20)
                         p2.resize(n + extra)
                         r2 = np.concatenate([r2, np.zeros(extra, dtype=np.bool_)])
+                    if byte_op is not None and b > a:
+                        # the raw bytes of the view's buffer after the call (padding and neighbours included)
+                        ops.append(byte_op[0])
+                        exp.append(('bytes', [int(x) for x in w._data],
+                                    'bytes of the buffer after %s through x[%d:%d], n=%d' % (byte_op[1], a, b, n)))
+                        dist['bytes:' + opn] += 1
                     if not np.array_equal(np.asarray(p2), r2):
                         bad('%s through x[%d:%d]: parent differs from NumPy (n=%d)' % (opn, a, b, n),
                             dict(got=np.asarray(p2).astype(int).tolist(), want=r2.astype(int).tolist()))
@@ -190,6 +222,10 @@ def array_level(tier, seed):
                 continue      # an empty byte range: NumPy reports no meaningful address for it
             if r[0][0] != 1 or r[1] != want:
                 fails.append(dict(step=0, what=label + ' differs from the model', layer='L1', impl=want, model=r))
+        elif kind == 'bytes':
+            if r[0][0] != 1 or list(r[1]) != want:
+                fails.append(dict(step=0, what=label + ' differ from the byte-level model', layer='L1', impl=want,
+                                  model=r[1] if len(r) > 1 else r))
         elif kind == 'fml':
             got = [_norm(r[1][0], r[1][1]), _norm(r[1][2], r[1][3]), _norm(r[1][4], r[1][5])]
             w2 = [_norm(*want[0]), _norm(*want[1]), _norm(*want[2])]
